@@ -230,7 +230,7 @@ pub fn check(cfg: &Cfg) -> Result<i32, Harness> {
     }
     let _ = std::fs::remove_dir_all(&scratch);
     // S2: preemption inside interpreter calls (Miri's seeded scheduler, real threads)
-    let n_seeds = cfg.n(12, 384) as u64;
+    let n_seeds = cfg.n(12, 160) as u64;
     let base = cfg.seed.wrapping_mul(1000) % 1_000_000;
     let (miri_runs, miri_fail) = run_miri(cfg, base..base + n_seeds, 3, 2)?;
     tally.add_n("miri_seeds", miri_runs);
